@@ -16,14 +16,34 @@ use std::collections::BTreeMap;
 
 pub type RangeResult = BTreeMap<NaiveDate, BTreeMap<Prayer, Result<PrayerTime, ()>>>;
 
+/// The data a range is computed for. Scenario 0 is what the schedule exploration uses; the others make
+/// the *values* depend on where a block starts, so that a computation that carries state from one date
+/// of a block to the next (and therefore differs between one long sequential run and per-block runs)
+/// shows as parallel != sequential: a high-latitude site in the weeks where the fall-back rules start
+/// to engage, and a range across the 1582 calendar seam.
+pub static SCENARIO: std::sync::atomic::AtomicUsize = std::sync::atomic::AtomicUsize::new(0);
+pub const SCENARIOS: [(&str, f64, f64, f64, (i32, u32, u32)); 4] = [
+    ("39N 77W ISNA from 2024-02-27", 39.0, -77.0, -5.0, (2024, 2, 27)),
+    ("52.52N 13.4E Mwl from 2023-04-20 (fall-backs engage from mid May)", 52.52, 13.4, 1.0, (2023, 4, 20)),
+    ("39N 77W ISNA from 1582-09-20 (across 1582-10-15)", 39.0, -77.0, -5.0, (1582, 9, 20)),
+    ("54.32S 68.3W Egyptian from 2023-10-01 (southern summer)", -54.32, -68.3, -3.0, (2023, 10, 1)),
+];
+fn scen() -> usize {
+    SCENARIO.load(std::sync::atomic::Ordering::Relaxed)
+}
+pub fn scen_params() -> Params {
+    Params::new([Method::Isna, Method::Mwl, Method::Isna, Method::Egyptian][scen()])
+}
 pub fn location() -> Location {
+    let (_, lat, lon, gmt, _) = SCENARIOS[scen()];
     Location {
-        coords: Coordinates::new(Latitude::try_from(39.).unwrap(), Longitude::try_from(-77.).unwrap(), Elevation::try_from(0.).unwrap()),
-        gmt: Gmt::try_from(-5.).unwrap(),
+        coords: Coordinates::new(Latitude::try_from(lat).unwrap(), Longitude::try_from(lon).unwrap(), Elevation::try_from(0.).unwrap()),
+        gmt: Gmt::try_from(gmt).unwrap(),
     }
 }
 pub fn start_date() -> NaiveDate {
-    NaiveDate::from_ymd_opt(2024, 2, 27).unwrap()
+    let (_, _, _, _, (y, m, d)) = SCENARIOS[scen()];
+    NaiveDate::from_ymd_opt(y, m, d).unwrap()
 }
 pub fn range(days: i64) -> DateRange {
     let s = start_date();
@@ -50,7 +70,7 @@ mod sweep {
     }
 
     pub fn one(w: usize, days: i64, threshold: usize, all: Option<&RangeResult>) -> Result<(), String> {
-        let params = Params::new(Method::Isna);
+        let params = scen_params();
         let own;
         let all = match all {
             Some(a) => a,
@@ -73,21 +93,14 @@ mod sweep {
 
     pub fn run(tier: &str) -> i32 {
         let quick = tier == "quick";
-        let ws: Vec<usize> = if quick { vec![1, 2, 3, 4, 5, 7, 8, 15, 16, 17, 31, 32, 33, 63, 64] } else { (1..=64).collect() };
-        // negative: end before start by more than one day (still an empty range)
-        let mut days: Vec<i64> = (-3..=130).collect();
-        days.extend([365, 366, 1000, 6000]);
-        let thresholds: Vec<usize> = vec![0, 1, 2, 7, 90, 365, 400];
-        let params = Params::new(Method::Isna);
-        let all = prayer_times_dt_rng(&params, location(), &range(6000));
         // watchdog: a configuration that does not return within 30 s is a termination violation
-        let current: Arc<Mutex<Option<(usize, i64, usize, std::time::Instant)>>> = Arc::new(Mutex::new(None));
+        let current: Arc<Mutex<Option<(usize, usize, i64, usize, std::time::Instant)>>> = Arc::new(Mutex::new(None));
         let cur2 = current.clone();
         std::thread::spawn(move || loop {
             std::thread::sleep(std::time::Duration::from_millis(200));
-            if let Some((w, d, t, at)) = *cur2.lock().unwrap() {
+            if let Some((sc, w, d, t, at)) = *cur2.lock().unwrap() {
                 if at.elapsed().as_secs() > 30 {
-                    println!("{}", json!({"sweep_violation": {"w": w, "days": d, "threshold": t, "what": "no result after 30 s (termination)"}}));
+                    println!("{}", json!({"sweep_violation": {"scenario": sc, "w": w, "days": d, "threshold": t, "what": "no result after 30 s (termination)"}}));
                     std::process::exit(1);
                 }
             }
@@ -95,25 +108,44 @@ mod sweep {
         let n = AtomicU64::new(0);
         let par = AtomicU64::new(0);
         let mut bad = vec![];
-        for &w in &ws {
-            for &d in &days {
-                for &t in &thresholds {
-                    *current.lock().unwrap() = Some((w, d, t, std::time::Instant::now()));
-                    n.fetch_add(1, Ordering::Relaxed);
-                    // same decision as the code: which configurations actually take the parallel branch
-                    if w > 1 && !((d.max(0) as usize) / w < t) {
-                        par.fetch_add(1, Ordering::Relaxed);
-                    }
-                    if let Err(e) = one(w, d, t, Some(&all)) {
-                        if bad.len() < 5 {
-                            bad.push(json!({"w": w, "days": d, "threshold": t, "what": e}));
+        let mut plans = vec![];
+        for sc in 0..SCENARIOS.len() {
+            SCENARIO.store(sc, Ordering::Relaxed);
+            let (ws, days, thresholds): (Vec<usize>, Vec<i64>, Vec<usize>) = if sc == 0 {
+                let ws = if quick { vec![1, 2, 3, 4, 5, 7, 8, 15, 16, 17, 31, 32, 33, 63, 64] } else { (1..=64).collect() };
+                // negative: end before start by more than one day (still an empty range)
+                let mut days: Vec<i64> = (-3..=130).collect();
+                days.extend([365, 366, 1000, 6000]);
+                (ws, days, vec![0, 1, 2, 7, 90, 365, 400])
+            } else {
+                let ws = if quick { vec![2, 3, 5, 8, 16] } else { vec![2, 3, 4, 5, 6, 7, 8, 9, 12, 16, 17, 32, 64] };
+                let mut days: Vec<i64> = if quick { (1..=130).step_by(3).collect() } else { (1..=130).collect() };
+                days.extend([200, 366]);
+                (ws, days, vec![0, 7])
+            };
+            let max_days = *days.iter().max().unwrap();
+            let all = prayer_times_dt_rng(&scen_params(), location(), &range(max_days));
+            for &w in &ws {
+                for &d in &days {
+                    for &t in &thresholds {
+                        *current.lock().unwrap() = Some((sc, w, d, t, std::time::Instant::now()));
+                        n.fetch_add(1, Ordering::Relaxed);
+                        // same decision as the code: which configurations actually take the parallel branch
+                        if w > 1 && !((d.max(0) as usize) / w < t) {
+                            par.fetch_add(1, Ordering::Relaxed);
+                        }
+                        if let Err(e) = one(w, d, t, Some(&all)) {
+                            if bad.len() < 5 {
+                                bad.push(json!({"scenario": sc, "w": w, "days": d, "threshold": t, "what": e}));
+                            }
                         }
                     }
                 }
             }
+            plans.push(json!({"scenario": SCENARIOS[sc].0, "workers": ws, "days": if sc == 0 { json!("-3..=130 (<= 0: empty / reversed ranges), 365, 366, 1000, 6000") } else { json!(days) }, "thresholds": thresholds}));
         }
         *current.lock().unwrap() = None;
-        println!("{}", json!({"sweep": {"configurations": n.load(Ordering::Relaxed), "took_parallel_branch": par.load(Ordering::Relaxed), "workers": ws, "days": "-3..=130 (<= 0: empty / reversed ranges), 365, 366, 1000, 6000", "thresholds": thresholds, "violations": bad}}));
+        println!("{}", json!({"sweep": {"configurations": n.load(Ordering::Relaxed), "took_parallel_branch": par.load(Ordering::Relaxed), "plans": plans, "violations": bad}}));
         if bad.is_empty() {
             0
         } else {
@@ -129,6 +161,7 @@ fn main() {
         Some("sweep") => std::process::exit(sweep::run(a.get(2).map(|s| s.as_str()).unwrap_or("quick"))),
         Some("config") => {
             let (w, d, t) = (a[2].parse().unwrap(), a[3].parse().unwrap(), a[4].parse().unwrap());
+            SCENARIO.store(a.get(5).and_then(|s| s.parse().ok()).unwrap_or(0), std::sync::atomic::Ordering::Relaxed);
             // run with a watchdog so a non-terminating configuration is reported, not waited for
             let h = std::thread::spawn(move || sweep::one(w, d, t, None));
             let t0 = std::time::Instant::now();
@@ -141,7 +174,7 @@ fn main() {
             }
             match h.join().unwrap() {
                 Ok(()) => {
-                    println!("configuration w={} days={} threshold={}: parallel == sequential", w, d, t);
+                    println!("configuration w={} days={} threshold={} ({}): parallel == sequential", w, d, t, SCENARIOS[SCENARIO.load(std::sync::atomic::Ordering::Relaxed)].0);
                     std::process::exit(0)
                 }
                 Err(e) => {
@@ -151,7 +184,7 @@ fn main() {
             }
         }
         _ => {
-            eprintln!("std flavour: ipt-sched sweep <tier> | config <w> <days> <threshold>");
+            eprintln!("std flavour: ipt-sched sweep <tier> | config <w> <days> <threshold> [scenario]");
             std::process::exit(2)
         }
     }
